@@ -3,7 +3,7 @@
 // Contracts for the deductive verifier in /verif (comment-only; compiled only with -tags verif).
 package keeper
 
-//@ family records key types.GetRecordKey value types.Record
+//@ family records key types.GetRecordKey value types.Record prefix global:types.RecordKey
 //@ family counter key global:types.IntraTxCounterKey value uint32 enc proto
 
 //@ define CTR = ite(has(counter), get(counter), 0)
